@@ -343,3 +343,81 @@ def run(ck):
         ck.ob('C35.io', 'C35.io/%s/%s' % (f.file.rsplit('/', 1)[-1].split('.')[0], nm), not fails, f.loc(adv[0]),
               '%s continues its loop only after a transfer of more than 0 bytes: end-of-stream (0) and errors (< 0) leave the loop' % short(f.q), fails[0][3] if fails else None)
     ck.floor('C35.io', 'whole-buffer I/O helpers', n_ioh, 5)
+
+    # ---- a lookup result is dereferenced only after it was compared with end() (111 sites on the pinned tree) ------------------------------------
+    n_it = 0
+    unchecked = []
+    seen_it = set()
+    for f in P.fns:
+        its = {}
+        for i in f.walk():
+            nd = f.nodes[i]
+            if nd['k'] == 'VarDecl' and nd.get('init') is not None and nd['init'] >= 0 and 'iterator' in (nd.get('t') or '') + (nd.get('ts') or '') and \
+                    any((f.nodes[j].get('callee') or '').endswith(('::find', '::lower_bound', '::upper_bound')) for j in f.walk(nd['init'])):
+                its[nd['d']] = nd.get('n')
+        if not its:
+            continue
+        for i in f.walk():
+            nd = f.nodes[i]
+            if nd['k'] != 'CXXOperatorCallExpr' or nd.get('op') not in ('->', '*') or len(f.kids(i)) < 2:
+                continue
+            o = f.nodes[f.strip(f.kids(i)[1])]
+            if o['k'] != 'DeclRefExpr' or o.get('d') not in its or (f.file, nd.get('l'), f.q, o.get('d')) in seen_it:
+                continue
+            seen_it.add((f.file, nd.get('l'), f.q, o.get('d')))
+            d_ = o['d']
+
+            def not_end(fact, f=f, d_=d_):
+                h = holds(f, fact)
+                if not h:
+                    return False
+                a, op, b = h
+                for x, y in ((a, b), (b, a)):
+                    if f.nodes[f.strip(x)].get('d') == d_ and op == '!=' and any((f.nodes[j].get('callee') or '').endswith(('::end', '::cend')) for j in f.walk(y)):
+                        return True
+                return False
+            n_it += 1
+            fails, _ = gate_check(f, [('deref', i)], [('it != end()', not_end)])
+            if fails:
+                unchecked.append((f, i, its[d_], fails[0][3]))
+    for f in P.fns:
+        for i in f.walk():
+            nd = f.nodes[i]
+            if nd['k'] == 'CXXOperatorCallExpr' and nd.get('op') in ('->', '*') and len(f.kids(i)) >= 2 and \
+                    (f.nodes[f.strip(f.kids(i)[1])].get('callee') or '').endswith(('::find', '::lower_bound', '::upper_bound')) and \
+                    'iterator' in (f.nodes[f.strip(f.kids(i)[1])].get('t') or ''):
+                unchecked.append((f, i, 'find(...) temporary', None))
+    ck.floor('C35.deref', 'dereferences of find() results', n_it, 60)
+    ck.ob('C35.deref', 'C35.deref/find-result-checked', not unchecked, unchecked[0][0].loc(unchecked[0][1]) if unchecked else '',
+          'an iterator obtained from find / lower_bound is dereferenced only past `it != container.end()` (%d dereferences examined)%s'
+          % (n_it, '' if not unchecked else ' — `%s` in %s' % (unchecked[0][2], short(unchecked[0][0].q))), unchecked[0][3] if unchecked else None)
+
+    # ---- a member pointer that the code treats as possibly null somewhere is tested everywhere it is dereferenced -----------------------------------
+    derefs = {}
+    for f in P.fns:
+        if f.kind in ('ctor', 'dtor'):
+            continue
+        for i in f.walk():
+            nd = f.nodes[i]
+            if nd['k'] != 'CXXOperatorCallExpr' or nd.get('op') not in ('->', '*') or len(f.kids(i)) < 2:
+                continue
+            o = f.nodes[f.strip(f.kids(i)[1])]
+            if o['k'] == 'MemberExpr' and o.get('mk') == 'Field' and ('unique_ptr' in (o.get('t') or '') or 'shared_ptr' in (o.get('t') or '')):
+                m_ = o.get('m')
+
+                def non_null(fact, f=f, m_=m_):
+                    kind, node, val = fact
+                    return kind == 'bool' and val is True and any(f.nodes[j]['k'] == 'MemberExpr' and f.nodes[j].get('m') == m_ for j in f.walk(node)) and \
+                        not any(f.nodes[j]['k'] in ('CallExpr', 'CXXMemberCallExpr') and not (f.nodes[j].get('callee') or '').endswith('operator bool') for j in f.walk(node))
+                fails, _ = gate_check(f, [('deref', i)], [('non-null', non_null)])
+                derefs.setdefault(m_, []).append((f, i, not fails))
+    inconsistent = []
+    n_nullable = 0
+    for m_, lst in sorted(derefs.items()):
+        if any(ok for _f, _i, ok in lst):
+            n_nullable += 1
+            inconsistent += [(f, i, m_) for f, i, ok in lst if not ok]
+    ck.floor('C35.deref', 'member pointers that are null-tested before some dereference', n_nullable, 1)
+    ck.ob('C35.deref', 'C35.deref/nullable-member-always-tested', not inconsistent, inconsistent[0][0].loc(inconsistent[0][1]) if inconsistent else '',
+          'a smart-pointer member that is null-tested before one dereference is null-tested before every dereference (outside constructors)'
+          + ('' if not inconsistent else ' — %s is dereferenced unchecked in %s' % (short(inconsistent[0][2]), short(inconsistent[0][0].q))))
